@@ -28,6 +28,21 @@ type Generator struct {
 	ExternalAttributes map[string]string
 }
 
+// encryptSupported reports whether the templates implement the attribute's
+// encrypt flag: User-Password hiding for text and octets, Tunnel-Password hiding
+// for text, octets, addresses and untagged integers.
+func encryptSupported(attr *dictionary.Attribute) bool {
+	switch attr.Type {
+	case dictionary.AttributeString, dictionary.AttributeOctets:
+		return true
+	case dictionary.AttributeIPAddr, dictionary.AttributeIPv6Addr:
+		return attr.FlagEncrypt.Int == dictionary.EncryptTunnelPassword
+	case dictionary.AttributeShort, dictionary.AttributeInteger, dictionary.AttributeInteger64:
+		return attr.FlagEncrypt.Int == dictionary.EncryptTunnelPassword && !attr.HasTag()
+	}
+	return false
+}
+
 func (g *Generator) Generate(dict *dictionary.Dictionary) ([]byte, error) {
 
 	attrs := make([]*dictionary.Attribute, 0, len(dict.Attributes))
@@ -58,6 +73,9 @@ func (g *Generator) Generate(dict *dictionary.Dictionary) ([]byte, error) {
 			}
 		}
 		if attr.FlagEncrypt.Valid && attr.FlagEncrypt.Int != dictionary.EncryptUserPassword && attr.FlagEncrypt.Int != dictionary.EncryptTunnelPassword {
+			invalid = true
+		}
+		if attr.FlagEncrypt.Valid && !encryptSupported(attr) {
 			invalid = true
 		}
 		if attr.FlagEncrypt.Valid && attr.FlagEncrypt.Int == dictionary.EncryptTunnelPassword {
@@ -173,6 +191,9 @@ func (g *Generator) Generate(dict *dictionary.Dictionary) ([]byte, error) {
 				}
 			}
 			if attr.FlagEncrypt.Valid && attr.FlagEncrypt.Int != dictionary.EncryptUserPassword && attr.FlagEncrypt.Int != dictionary.EncryptTunnelPassword {
+				invalid = true
+			}
+			if attr.FlagEncrypt.Valid && !encryptSupported(attr) {
 				invalid = true
 			}
 			if attr.FlagEncrypt.Valid && attr.FlagEncrypt.Int == dictionary.EncryptTunnelPassword {
